@@ -1,7 +1,7 @@
 """FlatZinc front-end rules decided on small windows / structural alignment (C13 F9–F11)."""
 import itertools
 from ..symexec import SymExec, variant_name
-from ..flow import show, peel, resolver, E
+from ..flow import show, peel, resolver, E, guards_of
 from ..predalg import ev, holds, Unknown
 from ..facts import AnchorMissing
 
@@ -217,6 +217,35 @@ def set_in_reif_clauses(led, rid, ctx):
     led.check(bad is None, rid, "set_in_reif:interval", f.span, "%d clauses ⇔ (r ⇔ lb ≤ x ≤ ub)" % len(best),
               "the clause decomposition of set_in_reif over an interval %s: the printed solutions are not those "
               "of the FlatZinc builtin" % bad)
+
+
+def set_in_reif_every_path(led, rid, ctx):
+    """every clause compile_set_in_reif posts is posted inside an arm of the match on the set's
+    representation (interval / sparse), whose decompositions F10 decides; a clause posted before
+    the match is a shortcut on the variable's bounds that treats a sparse set like its hull"""
+    b = ctx.bin
+    f = b.fn("compile_set_in_reif")
+    n = 0
+    for g in f.with_closures():
+        for c in g.calls:
+            if c.name not in ("add_clause", "post", "implied_by", "reify", "add_constraint"):
+                continue
+            n += 1
+            host = g
+            bb = c.bb
+            ok = any(fa.kind == "variant" and fa.val in ("Interval", "Sparse") for fa in guards_of(host, bb))
+            if not ok and g is not f:
+                # a closure: judged where it is created
+                for blk in f.blocks:
+                    for st in blk["stmts"]:
+                        if st["s"] == "assign" and st["rv"]["r"] == "closure" and st["rv"]["def"] == g.defn:
+                            ok = ok or any(fa.kind == "variant" and fa.val in ("Interval", "Sparse")
+                                           for fa in guards_of(f, blk["id"]))
+            led.check(ok, rid, "set_in_reif:%s#%d" % (c.name, n), c.span, "inside an arm of the match on the set",
+                      "compile_set_in_reif posts a clause (%s) outside the arms of the match on the set: the reified "
+                      "literal is decided from the hull of the set, so for a sparse set `b` is forced true for "
+                      "values in the holes" % c.name)
+    led.floor(rid, "posting calls of compile_set_in_reif", n, 2)
 
 
 def zip_alignment(led, rid, ctx):
